@@ -394,30 +394,6 @@ fn first_diff(a: &[String], b: &[String]) -> String {
     "no difference".into()
 }
 
-/// F2 / F24 mechanism test for LF / CRLF: some line's verdict "asked alone, terminator stripped" differs
-/// from "a match inside the line's content when asked in the whole input".
-fn linesafe_mechanism(m: &RegexMatcher, inp: &[u8], crlf: bool) -> bool {
-    use grep_matcher::Matcher;
-    let mut s = 0usize;
-    while s < inp.len() {
-        let nl = inp[s..].iter().position(|&b| b == b'\n').map_or(inp.len(), |i| s + i);
-        let mut e = nl;
-        if crlf && e > s && nl < inp.len() && inp[e - 1] == b'\r' {
-            e -= 1;
-        }
-        let alone = m.is_match(&inp[s..e]).unwrap_or(false);
-        let in_ctx = match m.find_at(inp, s) {
-            Ok(Some(mt)) => mt.start() <= e && mt.end() <= e,
-            _ => false,
-        };
-        if alone != in_ctx {
-            return true;
-        }
-        s = nl + 1;
-    }
-    false
-}
-
 /// The input as the searcher sees it behind the transcoder: every line of a passthru search through
 /// the default 64 KiB roll buffer with full-size reads (the decoder always gets plenty of room).
 fn transcoded_text(d: &Ds, inp: &[u8]) -> Option<Vec<u8>> {
@@ -520,28 +496,22 @@ fn classify(d: &Ds, m: &RegexMatcher, inp: &[u8], reader_strategy: bool, spec: &
     // (F17 `nul-terminator-lf-anchored-matcher` and F17b `byte-terminator-lf-anchored-matcher` are fixed,
     // /repo a2e984b: with a terminator byte other than `\n` the slow path is taken and theorem
     // C02_nonlf_terminator applies to every matcher -- any deviation there is a violation)
-    // F2 / F24 `fastpath-matcher-not-linesafe` (recorded by C01 for the matcher; here it is the failing
-    // HYPOTHESIS of theorem C02_fast).  Mechanism: with an LF / CRLF terminator the fast path asks the
-    // matcher about whole buffers; a look-around that looks at the bytes around a line (Unicode `\B` /
-    // `\b` next to bytes that are not UTF-8, a CRLF-aware `$`) gives a different verdict at the start of a
-    // roll buffer than in the middle of the slice.
-    // Test: (1) LF or CRLF terminator; (2) the pattern has a look-around assertion; (3) the fast path is
-    // taken; (4) `linesafe_mechanism` on THIS input: some line's verdict "asked alone" (terminator stripped, as
-    // the slow path does) differs from "asked in the whole input".
-    if matches!(d.lt, Lt::Lf | Lt::Crlf)
-        && ["^", "$", "\\b", "\\B", "\\A", "\\z"].iter().any(|a| d.pat.contains(a))
-        && fast_path_taken(d, m)
-        && linesafe_mechanism(m, inp, d.lt == Lt::Crlf)
-    {
-        return "fastpath-matcher-not-linesafe";
-    }
+    // (F2 / F24 `fastpath-matcher-not-linesafe` is fixed, /repo 4165f41: a deviation on the fast path
+    // with a look-around pattern is a violation again; see also `certify_line_safe`)
     ""
 }
 
 /// `Some(true)`: `lineSafeCheck` holds on every line-aligned window; `Some(false)`: it fails on one
-/// (findings F1/F2/F24 live there); `None`: not checked (slow-path matcher, passthru, long input).
+/// (a violation since /repo 4165f41 repaired F1/F2/F24); `None`: not checked (slow path, passthru, long input).
 fn certify_line_safe(case: &str, d: &Ds, m: &RegexMatcher, inp: &[u8], drv: &mut Driver, rep: &mut Report) -> Option<bool> {
     if !d.fast || d.passthru || inp.len() > 400 {
+        return None;
+    }
+    // the contract is only needed where the fast path is taken: with a haystack anchor (or a CRLF anchor
+    // without crlf) the matcher announces no terminator, with a terminator other than \n the searcher
+    // never goes fast -- theorem C02 / C02_nonlf_terminator cover those for every matcher
+    if !fast_path_taken(d, m) {
+        rep.branch("ds:linesafe-not-needed(slow path)");
         return None;
     }
     let lt = match d.lt {
@@ -591,6 +561,22 @@ fn certify_line_safe(case: &str, d: &Ds, m: &RegexMatcher, inp: &[u8], drv: &mut
         }
     }
     rep.branch(if all { "ds:linesafe-certificate-holds-on-every-window" } else { "ds:linesafe-certificate-fails-on-a-window" });
+    if !all {
+        // since /repo 4165f41 the matcher only CONFIRMS a match in a buffer when no look-around can see
+        // beyond the line (otherwise it answers Candidate and the searcher re-judges the line alone): where
+        // the fast path is taken the contract holds on every window, and a failure is a finding (F1/F2/F24)
+        rep.branch(&format!("ds:linesafe-fails:pat={}:lt={:?}", d.pat, d.lt));
+        rep.violation(Violation {
+            kind: "impl_vs_spec".into(),
+            class: "".into(),
+            tie: "hypothesis of theorem C02_fast on the real RegexMatcher: Spec.LineSafe.lineSafeCheck on every line-aligned window of the input, where Core takes the fast path".into(),
+            case: case.to_string(),
+            detail: format!(
+                "pattern {:?}, terminator {:?}: the matcher's answers about some window of whole lines are not those about the lines alone (fast path taken)",
+                d.pat, d.lt
+            ),
+        });
+    }
     if all && windows > 3 {
         rep.branch("ds:C02_fast-hypothesis-certified(>3 windows)");
     }
@@ -799,7 +785,32 @@ fn run_ds(case: &str, d: &Ds, scratch: &Path, drv: &mut Driver, rep: &mut Report
         }
         if &got != spec {
             // (a really multi-line search has no line-by-line fast path: no class applies to it)
-            let class = if det_differs {
+            // `convert-byte-count-by-strategy`.  Mechanism: `SliceByLine::byte_count` reports the offset
+            // of the binary byte whenever one was found before `pos` -- right for `quit`, where the search
+            // ends there, but under `convert` the slice search goes on to the end while still reporting
+            // that offset; the reader reports the bytes it consumed.
+            // Test: (1) detection is `convert`; (2) a roll-buffer strategy, not a really multi-line
+            // search; (3) the streams are equal except for the byte count of the last event `finish`
+            // (same binary offset); (4) the slice search's count IS the offset of the first NUL of the
+            // input and the reader's count is larger.
+            let convert_count = d.det == 2 && reader_strategy && !real_ml && spec.len() == got.len() && spec.len() >= 2 && {
+                let n = spec.len() - 1;
+                let f = |e: &str| -> Option<(u64, String)> {
+                    let mut it = e.strip_prefix("finish ")?.splitn(2, ' ');
+                    Some((it.next()?.parse().ok()?, it.next().unwrap_or("").to_string()))
+                };
+                let seen = if d.sniff { transcoded_text(d, &inp).unwrap_or_else(|| inp.clone()) } else { inp.clone() };
+                let first_nul = seen.iter().position(|&b| b == 0).map(|i| i as u64);
+                match (f(&spec[n]), f(&got[n])) {
+                    (Some((cs, bs)), Some((cg, bg))) => {
+                        spec[..n] == got[..n] && bs == bg && Some(cs) == first_nul && cg > cs
+                    }
+                    _ => false,
+                }
+            };
+            let class = if convert_count {
+                "convert-byte-count-by-strategy"
+            } else if det_differs {
                 "binary-detection-window-by-strategy"
             } else if real_ml {
                 if transcoder_mechanism(d, &m, &inp, reader_strategy, &got, true) {
@@ -1251,7 +1262,9 @@ fn run_rb(case: &str, c: &Rb, drv: &mut Driver, rep: &mut Report) {
     let log = rdr.log.clone();
     let o = |x: &Option<usize>| x.map_or("-".to_string(), |n| n.to_string());
     let eff = c.cfg.effective();
-    // Experiment switch RGV_C02_F10B_FIXED=1 (a tree patched so that a sink stop on the fast path leaves
+    // Experiment switch RGV_C02_F10B_FIXED=1, only meaningful with VERIF_REPO pointing at a tree that has
+    // /verif/proposals/c02-f10b.patch applied (not committed; see known_findings.d/C02.json, F10b); unset, it
+    // changes nothing. (A tree patched so that a sink stop on the fast path leaves
     // `pos` where the slow path leaves it): the real fast-path search must then equal the model's
     // SLOW-path search event for event, byte count included -- the model is asked with the matcher's
     // fast-path announcements removed (`slowOf`, theorem C02_fast_any_sink says the rest is equal).
